@@ -265,7 +265,7 @@ ActsOf(op) ==
     [] op \in {"next", "trunc"} -> [op : {op}, n : Sizes]
     [] op = "growhuge" -> [op : {op}, h : 0..4]          \* which unsatisfiable size (harness table); all alike here
     [] op = "poke"     -> [op : {op}, i : {n \in Sizes : n >= 0 /\ Allocatable(n)}, c : Alphabet]
-    [] op \in {"pipefrom", "pipeto"} -> [op : {op}, p : Payloads]
+    [] op \in {"pipefrom", "pipeto"} -> [op : {op}, p : {c \in Payloads : Len(c) <= 1 \/ c \in ExtraPayloads}]
     [] op = "readfrom" -> [op : {op}, s : Scripts]
     [] op = "writeto"  -> [op : {op}, k : {n \in Sizes : n >= 0}, e : WErrs]
     [] op = "rewrite"  -> [op : {op}, pos : Sizes, p : Payloads]
